@@ -143,6 +143,9 @@ pub enum Ans {
     Ready,
     InRing,
     Slave,
+    /// the poll stays unanswered; meanwhile a station between TS and the polled address has entered the ring
+    /// by other means — the station learns it from a witnessed token pass of that station
+    SilentAndJoinBehind,
     // C15: peers of application requests
     Correct,
     Sc,
@@ -153,7 +156,7 @@ pub enum Ans {
     TokenInstead,
 }
 
-pub const C12_ANSWERS: [Ans; 5] = [Ans::Silence, Ans::NotReady, Ans::Ready, Ans::InRing, Ans::Slave];
+pub const C12_ANSWERS: [Ans; 6] = [Ans::Silence, Ans::NotReady, Ans::Ready, Ans::InRing, Ans::Slave, Ans::SilentAndJoinBehind];
 pub const C15_ANSWERS: [Ans; 8] = [Ans::Correct, Ans::Silence, Ans::Sc, Ans::Late, Ans::ForeignSource, Ans::ForeignDest, Ans::RequestInstead, Ans::TokenInstead];
 
 #[derive(Clone, Debug)]
@@ -211,6 +214,8 @@ pub struct RState {
     pub finished: bool,
     pub history: Vec<u8>,
     pub joins: u8,
+    /// a station that joined behind the sweep position: its first witnessed pass is still to come
+    pub stray_next: Option<u8>,
     pub visits: u32,
     pub c12: C12Mon,
     pub c15: C15Mon,
@@ -249,6 +254,7 @@ impl RState {
             finished: false,
             history: vec![],
             joins: 0,
+            stray_next: None,
             visits: 0,
             c12: C12Mon { since_polled: vec![0; n_gap], ..Default::default() },
             c15: C15Mon { log_seen: vec![0; cfg.scripts.len()], ..Default::default() },
@@ -434,7 +440,16 @@ impl RState {
                     // the environment takes the token and brings it back (a repeated pass is ignored:
                     // the chain is already queued)
                     if self.env_queue.is_empty() {
-                        let t = self.bus.us_ceil(tx.end) + self.bus.bits_us_floor(33) + 2;
+                        let mut t = self.bus.us_ceil(tx.end) + self.bus.bits_us_floor(33) + 2;
+                        if let Some(n) = self.stray_next.take() {
+                            // the newcomer (which got a token by other means) passes it to its successor:
+                            // this is the pass the station witnesses
+                            self.env_queue.push((t, rc::encode(&rc::token(*da, n))));
+                            t += 2 * self.bus.bits_us_floor(33) + 3;
+                            self.members.push(n);
+                            self.members.sort();
+                            ctx().witness("c12_successor_learnt_from_witnessed_pass");
+                        }
                         self.env_chain_to_station(*da, t);
                     } else {
                         self.visits -= 1;
@@ -488,10 +503,29 @@ impl RState {
         }
         let ans = alphabet[k];
         let ts = self.cfg.ts;
-        if matches!(ans, Ans::Ready | Ans::InRing) {
+        if matches!(ans, Ans::Ready | Ans::InRing | Ans::SilentAndJoinBehind) {
             if self.joins >= self.cfg.join_budget {
                 self.pending = Some(p);
                 return false;
+            }
+            if ans == Ans::SilentAndJoinBehind {
+                // needs: a ring member to pass the token to, and a free address strictly between TS and
+                // the polled address
+                let hsa = self.cfg.hsa;
+                let mut a = if ts + 1 >= hsa { 0 } else { ts + 1 };
+                let mut cand = None;
+                while a != p.addr && a != ts {
+                    if !self.members.contains(&a) {
+                        cand = Some(a);
+                        break;
+                    }
+                    a = if a + 1 >= hsa { 0 } else { a + 1 };
+                }
+                if cand.is_none() || self.members.is_empty() || !p.is_status || p.from_app {
+                    self.pending = Some(p);
+                    return false;
+                }
+                self.stray_next = cand;
             }
             self.joins += 1;
         }
@@ -500,7 +534,7 @@ impl RState {
         let late = self.bus.us_ceil(p.req_end) + self.slot_us + 3 * self.p_us;
         let stranger = if p.addr == 100 { 101 } else { 100 };
         let reply: Option<(i64, rc::RFrame)> = match ans {
-            Ans::Silence => None,
+            Ans::Silence | Ans::SilentAndJoinBehind => None,
             Ans::NotReady => Some((t11, rc::status_resp(ts, p.addr, 1))),
             Ans::Ready => Some((t11, rc::status_resp(ts, p.addr, 2))),
             Ans::InRing => Some((t11, rc::status_resp(ts, p.addr, 3))),
@@ -840,7 +874,7 @@ impl RState {
         b.extend_from_slice(&(v.next_application as u32).to_le_bytes());
         b.extend_from_slice(format!("{:?}{:?}", self.station.inspect_token_ring(), self.station.inspect_token_ring().verif_last_witnessed_sender()).as_bytes());
         self.bus.fingerprint_into(self.now, &mut b);
-        b.extend_from_slice(format!("{:?}|{:?}|{}|{}|{}", self.members, self.pending.as_ref().map(|p| (p.addr, p.is_status, p.from_app, self.bus.scaled(self.now) - p.req_end)), self.joins, self.visits.min(self.cfg.max_visits), self.finished).as_bytes());
+        b.extend_from_slice(format!("{:?}|{:?}|{:?}|{}|{}|{}", self.stray_next, self.members, self.pending.as_ref().map(|p| (p.addr, p.is_status, p.from_app, self.bus.scaled(self.now) - p.req_end)), self.joins, self.visits.min(self.cfg.max_visits), self.finished).as_bytes());
         for (t, q) in &self.env_queue {
             b.extend_from_slice(&(t - self.now).to_le_bytes());
             b.extend_from_slice(q);
